@@ -42,7 +42,7 @@ func genCons(a hx.Args) {
 	r := hx.NewRng(a.Seed)
 	n := a.N(120, 2000)
 	for i := 0; i < n; i++ {
-		parts := 1 + r.Intn(3)
+		parts := 1 + r.Intn(4)
 		brokers := 1 + r.Intn(3)
 		committed := r.Intn(2)
 		plainN := r.Intn(60)
@@ -429,7 +429,7 @@ func runCons(t *testing.T, tk []string) string {
 		}
 		poll(time.Duration(20+crng.Intn(200)) * time.Millisecond)
 		switch crng.Intn(12) {
-		case 0:
+		case 0, 4:
 			p := int32(crng.Intn(parts))
 			if !paused[p] {
 				co.PauseFetchPartitions(map[string][]int32{"t": {p}})
